@@ -1,4 +1,5 @@
 import PepperProofs.Fix
+import PepperProofs.LoadInvSys
 import PepperModel.Generated.Tables
 /-!
 # C12 — fixing sequences only ever narrows constraints, at the right positions
@@ -18,10 +19,17 @@ All theorems hold for **every lawful code table** `t` and **every well-formed co
 (`wfB t st = true`: names distinct; every item reference resolves to an entry of the recorded length and
 kind, super-sequences only refer to earlier super-sequences; `base_seqs` of a composite object is the
 concatenation of its items' views; constraint strings consist of codes and have the recorded length).
-`wfB` is an executable check; it is *not* proved here to be established by `Comp.load` — instead the driver
-evaluates it on every program the harness generates (op `fix-spec`, field `wf`), and `example`s below
-decide it on a concrete component.  Strings are assumed to consist of codes (`parse_fixed` only admits
-`ATCGNS` and `+`).
+`wfB` is an executable check.  **It is established by `Comp.load` by theorem** (`wf_of_load`, from
+`PepperProofs/LoadInv.lean`: `CompWF.WF` + kinds of item references + alphabet of the constraint strings are
+preserved by every statement), for every source whose statements satisfy `StmtNamesOk` (no user sequence name
+of the reserved form `_Anon<digits>`, containing `*`, or empty — the statement part of C01's `UserNamesOk`) and
+`CodesOk t` (quoted regions use codes of the table); for instance trees `wfInst_of_loadFile`
+(`PepperProofs/LoadInvSys.lean`).  The section "the same, for whatever `load` returns" restates the theorems
+with the hypothesis `Comp.load … = .ok (st, _)` (resp. `Sys.loadFile … = .ok (.sys st, _)`) in place of `wfB`
+/ `wfInst`; nothing about well-formedness remains a per-run obligation for sources satisfying the two
+hypotheses (the driver still evaluates `wfB` on every generated program: op `fix-spec`, field `wf` — now a
+redundant cross-check of the theorem, and the only evidence for sources outside `StmtNamesOk`/`CodesOk`).
+Strings are assumed to consist of codes (`parse_fixed` only admits `ATCGNS` and `+`).
 -/
 namespace Pepper.C12
 open Pepper Pepper.Comp Pepper.Fix Pepper.FixSpec Pepper.Sys
@@ -242,6 +250,127 @@ theorem fixSignal_spec (hl : t.lawful = true) (fuel : Nat) (st : SysSt) (name : 
       | some entries => (entries.foldlM (sigStepSpec t fuel str) st).map some :=
   FixSpec.fixSignal_spec hl fuel st name str hs hw
 
+/-! ### the same, for whatever `load` returns (no well-formedness hypothesis) -/
+
+section of_load
+open Pepper.LoadInv
+variable {src : Comp.Src} {nargs : Nat} {pfx : String} {a0 a1 : Nat} {st : St}
+
+/-- **`load` establishes the invariant**: the tables of every component the compiler accepts — from a source
+    whose statement names are user names and whose quoted regions use codes of the table — are well-formed -/
+theorem wf_of_load (hload : Comp.load src nargs pfx a0 = .ok (st, a1)) (hn : StmtNamesOk src = true)
+    (hc : CodesOk t src = true) : wfB t st = true :=
+  load_wfB hload hn hc
+
+/-- … and so are all components of every instance tree `loadFile` returns, to any depth -/
+theorem wfInst_of_loadFile {b : Bundle} (hb : CompNamesCodesOk t b) {fuel : Nat} {base : String} {args : Nat}
+    {argKey pfx path : String} {includes : List String} {anon : Nat} {inst : Inst} {a' : Nat}
+    (h : Sys.loadFile b fuel base args argKey pfx path includes anon = .ok (inst, a')) (n : Nat) :
+    wfInst t n inst = true :=
+  loadFile_wfInst hb h n
+
+/-- `fix_exact` for a loaded component -/
+theorem fix_exact_of_load (hl : t.lawful = true) (hload : Comp.load src nargs pfx a0 = .ok (st, a1))
+    (hn : StmtNamesOk src = true) (hc : CodesOk t src = true) {name : String} {e : SeqE}
+    (he : st.findSeq name = some e) (fuel : Nat) (hfuel : st.seqs.length < fuel) (rev : Bool) (str : List Char)
+    (hs : ∀ c ∈ str, t.isCode c = true) :
+    fixItem t fuel st name rev str = specFix t st (posOfView st name rev) str :=
+  fix_exact hl (wf_of_load hload hn hc) he fuel hfuel rev str hs
+
+/-- `fix_length_error_iff` for a loaded component -/
+theorem fix_length_error_iff_of_load (hl : t.lawful = true) (hload : Comp.load src nargs pfx a0 = .ok (st, a1))
+    (hn : StmtNamesOk src = true) (hc : CodesOk t src = true) {name : String} {e : SeqE}
+    (he : st.findSeq name = some e) (rev : Bool) (str : List Char) (hs : ∀ c ∈ str, t.isCode c = true) :
+    fixItem t (st.seqs.length + 1) st name rev str = .error .length ↔ str.length ≠ e.len :=
+  fix_length_error_iff hl (wf_of_load hload hn hc) he rev str hs
+
+/-- `fix_frame` for a loaded component -/
+theorem fix_frame_of_load (hl : t.lawful = true) {st' : St} (hload : Comp.load src nargs pfx a0 = .ok (st, a1))
+    (hn : StmtNamesOk src = true) (hc : CodesOk t src = true) {name : String} {e : SeqE}
+    (he : st.findSeq name = some e) (rev : Bool) (str : List Char) (hs : ∀ c ∈ str, t.isCode c = true)
+    (h : fixItem t (st.seqs.length + 1) st name rev str = .ok st') :
+    skel st' = skel st ∧ wfB t st' = true ∧
+    ∀ n i, (∀ f, (n, i, f) ∉ posOfView st name rev) → charAt st' n i = charAt st n i :=
+  fix_frame hl (wf_of_load hload hn hc) he rev str hs h
+
+/-- `fix_narrows` for a loaded component -/
+theorem fix_narrows_of_load (hl : t.lawful = true) {st' : St} (hload : Comp.load src nargs pfx a0 = .ok (st, a1))
+    (hn : StmtNamesOk src = true) (hc : CodesOk t src = true) {name : String} {e : SeqE}
+    (he : st.findSeq name = some e) (rev : Bool) (str : List Char) (hs : ∀ c ∈ str, t.isCode c = true)
+    (h : fixItem t (st.seqs.length + 1) st name rev str = .ok st') (n : String) (i : Nat) :
+    maskAt t st' n i = (hits t ((posOfView st name rev).zip str) n i).foldl (· &&& ·) (maskAt t st n i) :=
+  fix_narrows hl (wf_of_load hload hn hc) he rev str hs h n i
+
+/-- `fix_star_is_reverse_complement` for a loaded component -/
+theorem fix_star_is_reverse_complement_of_load (hl : t.lawful = true)
+    (hload : Comp.load src nargs pfx a0 = .ok (st, a1)) (hn : StmtNamesOk src = true) (hc : CodesOk t src = true)
+    {name : String} {e : SeqE} (he : st.findSeq name = some e) (str : List Char)
+    (hs : ∀ c ∈ str, t.isCode c = true) :
+    fixItem t (st.seqs.length + 1) st name true str = fixItem t (st.seqs.length + 1) st name false (wc t str) :=
+  fix_star_is_reverse_complement hl (wf_of_load hload hn hc) he str hs
+
+/-- `fix_order_independent` for a loaded component -/
+theorem fix_order_independent_of_load (hl : t.lawful = true) (hload : Comp.load src nargs pfx a0 = .ok (st, a1))
+    (hn : StmtNamesOk src = true) (hc : CodesOk t src = true) {n1 n2 : String}
+    {e1 e2 : SeqE} (he1 : st.findSeq n1 = some e1) (he2 : st.findSeq n2 = some e2) (r1 r2 : Bool)
+    (s1 s2 : List Char) (hs1 : ∀ c ∈ s1, t.isCode c = true) (hs2 : ∀ c ∈ s2, t.isCode c = true) :
+    ((fixItem t (st.seqs.length + 1) st n1 r1 s1).bind
+        (fun st' => fixItem t (st'.seqs.length + 1) st' n2 r2 s2)).toOption =
+    ((fixItem t (st.seqs.length + 1) st n2 r2 s2).bind
+        (fun st' => fixItem t (st'.seqs.length + 1) st' n1 r1 s1)).toOption :=
+  fix_order_independent hl (wf_of_load hload hn hc) he1 he2 r1 r2 s1 s2 hs1 hs2
+
+/-- `fix_strand` for a loaded component -/
+theorem fix_strand_of_load (hl : t.lawful = true) (hload : Comp.load src nargs pfx a0 = .ok (st, a1))
+    (hn : StmtNamesOk src = true) (hc : CodesOk t src = true) {s : StrandE} (hmem : s ∈ st.strands)
+    (str : List Char) (hs : ∀ c ∈ str, t.isCode c = true) :
+    fixStrand t st s str = specFix t st (posOfBases s.bases) str ∧
+    posOfBases s.bases = s.items.flatMap (posOfItem st) :=
+  fix_strand hl (wf_of_load hload hn hc) hmem str hs
+
+/-- `fix_struct_exact` for a loaded component -/
+theorem fix_struct_exact_of_load (hl : t.lawful = true) (hload : Comp.load src nargs pfx a0 = .ok (st, a1))
+    (hn : StmtNamesOk src = true) (hc : CodesOk t src = true) {x : StructE}
+    (hx : x ∈ st.structs) (str : List Char) (hs : ∀ c ∈ str, c = '+' ∨ t.isCode c = true)
+    (hcount : (Notation.splitOn '+' str).length = x.strands.length)
+    (hlens : ∀ np ∈ x.strands.zip (Notation.splitOn '+' str), (posOfStrandName st np.1).length = np.2.length) :
+    fixStruct t st x str = specFixStruct t st x str ∧
+    specFixStruct t st x str =
+      specFix t st ((x.strands.zip (Notation.splitOn '+' str)).flatMap (fun np => posOfStrandName st np.1))
+        (Notation.splitOn '+' str).flatten :=
+  fix_struct_exact hl (wf_of_load hload hn hc) hx str hs hcount hlens
+
+/-- `fix_struct_length` for a loaded component -/
+theorem fix_struct_length_of_load (hl : t.lawful = true) (hload : Comp.load src nargs pfx a0 = .ok (st, a1))
+    (hn : StmtNamesOk src = true) (hc : CodesOk t src = true) {x : StructE}
+    (hx : x ∈ st.structs) (str : List Char) (hs : ∀ c ∈ str, c = '+' ∨ t.isCode c = true)
+    (hcount : (Notation.splitOn '+' str).length = x.strands.length)
+    (hbad : ∃ np ∈ x.strands.zip (Notation.splitOn '+' str), (posOfStrandName st np.1).length ≠ np.2.length) :
+    (∃ err, fixStruct t st x str = .error err) ∧ specFixStruct t st x str = .error .length :=
+  fix_struct_length hl (wf_of_load hload hn hc) hx str hs hcount hbad
+
+/-- `fix_port` for a loaded component -/
+theorem fix_port_of_load (hl : t.lawful = true) (hload : Comp.load src nargs pfx a0 = .ok (st, a1))
+    (hn : StmtNamesOk src = true) (hc : CodesOk t src = true) {n : String} {e : SeqE}
+    (he : st.findSeq n = some e) (parity : Bool) (str : List Char) (hs : ∀ c ∈ str, t.isCode c = true) :
+    fixItem t (st.seqs.length + 1) st n parity str =
+      specFix t st (posOfView st n false) (if parity then wc t str else str) :=
+  fix_port hl (wf_of_load hload hn hc) he parity str hs
+
+/-- `fixSignal_spec` for a loaded system: for every system `loadFile` returns (from a bundle whose component
+    files satisfy `StmtNamesOk` and `CodesOk t`), with no well-formedness hypothesis -/
+theorem fixSignal_spec_of_load (hl : t.lawful = true) {b : Bundle} (hb : CompNamesCodesOk t b) {lfuel : Nat}
+    {base : String} {args : Nat} {argKey pfx path : String} {includes : List String} {anon : Nat} {sst : SysSt}
+    {a' : Nat} (hload : Sys.loadFile b lfuel base args argKey pfx path includes anon = .ok (.sys sst, a'))
+    (fuel : Nat) (name : String) (str : List Char) (hs : ∀ c ∈ str, t.isCode c = true) :
+    fixSignal t (fuel + 1) sst name str =
+      match sst.signals.lookup name with
+      | none => .ok none
+      | some entries => (entries.foldlM (sigStepSpec t fuel str) sst).map some :=
+  fixSignal_spec hl fuel sst name str hs (wfInst_of_loadFile hb hload (fuel + 1))
+
+end of_load
+
 /-! ### names that do not exist -/
 
 /-- a sequence / strand / structure name the component does not have: nothing happens (warning) -/
@@ -285,6 +414,19 @@ def exSt : St :=
 theorem dna_lawful : Generated.dnaTable.lawful = true := by decide
 
 example : wfB Generated.dnaTable exSt = true := by decide
+
+/-- non-vacuity of the `_of_load` theorems: a source the compiler accepts, satisfying both hypotheses -/
+def exSrc : Comp.Src :=
+  { name := "T", params := [], inputs := [], outputs := [],
+    stmts := [ .seq "a" [.nuc "4N".toList] none, .seq "b" [.nuc "2S".toList] none,
+               .seq "x" [.ref "a" false, .ref "b" true] none,
+               .strand false "S" [.ref "x" false, .ref "a" true] none,
+               .struct .default "G" ["S"] false "..........".toList ] }
+
+example : LoadInv.StmtNamesOk exSrc = true ∧ CodesOk Generated.dnaTable exSrc = true := by decide +kernel
+/-- `load` accepts it and builds `exSt` (up to the `anon`/`params` fields the theorems do not read) -/
+example : (Comp.load exSrc 0 "" 0).toOption.map (fun r => (r.1.seqs, r.1.strands, r.1.structs)) =
+    some (exSt.seqs, exSt.strands, exSt.structs) := by decide +kernel
 
 /-- positions of `x` and of `x*` -/
 example : posOfView exSt "x" false =
